@@ -89,6 +89,9 @@ func parseLevel(v *Value, integerOnly bool) (int64, plStatus) {
 		}
 		return n, plOK
 	case Null:
+		if integerOnly {
+			return 0, plBad // present and not an integer
+		}
 		return 0, plAbstain
 	}
 	return 0, plBad
@@ -137,7 +140,11 @@ func ParsePL(t *VersionTraits, c *Value) (PL, plStatus) {
 					}
 				}
 			case Null:
-				merge(plAbstain)
+				if t.IntegerPLs {
+					merge(plBad) // present and not an object
+				} else {
+					merge(plAbstain)
+				}
 			default:
 				merge(plBad)
 			}
@@ -347,8 +354,11 @@ func (a *auth) createRules(ev *Ev, known func(string) bool) (bool, string) {
 	}
 	ver := func() (bool, string) {
 		rv := c.Get("room_version")
-		if rv == nil || rv.K == Null {
+		if rv == nil {
 			return true, ""
+		}
+		if rv.K == Null {
+			return false, "1:create-unknown-room-version" // present, and not a recognised version
 		}
 		if rv.K != Str {
 			return false, "1:create-content-invalid"
@@ -366,7 +376,7 @@ func (a *auth) createRules(ev *Ev, known func(string) bool) (bool, string) {
 			return false, "1:create-room-domain-differs-from-sender"
 		}
 		if a.t.CreateCheck == 2 {
-			if rv := c.Get("room_version"); rv != nil && rv.K == Str && !known(rv.S) {
+			if rv := c.Get("room_version"); rv != nil && (rv.K == Null || rv.K == Str && !known(rv.S)) {
 				a.abstain = true // the v11 text asks for a recognised version; the library does not look
 			}
 			return true, "1:create-allowed"
@@ -386,8 +396,8 @@ func (a *auth) createRules(ev *Ev, known func(string) bool) (bool, string) {
 		}
 		return true, "1:create-allowed"
 	default:
-		if ac := c.Get("additional_creators"); ac != nil && ac.K != Null {
-			if ac.K != Arr {
+		if ac := c.Get("additional_creators"); ac != nil {
+			if ac.K != Arr { // null included: present, and not an array of user IDs
 				return false, "1:create-content-invalid"
 			}
 			for _, e := range ac.A {
@@ -454,6 +464,11 @@ func (a *auth) common(ev *Ev) (bool, string) {
 	}
 	if a.level(ev.Sender) < a.pl.eventLevel(ev.Type, ev.StateKey != nil) {
 		return false, "4:sender-level-below-required"
+	}
+	if ev.Type == "m.room.third_party_invite" {
+		// its rule is terminal ("allow if and only if the sender's level is at least the invite level"): the '@'
+		// state-key rule further down the list is never reached
+		return true, ""
 	}
 	if ev.StateKey != nil && strings.HasPrefix(*ev.StateKey, "@") && *ev.StateKey != ev.Sender {
 		return false, "4:at-state-key-of-another-user"
